@@ -316,7 +316,18 @@ def check(ctx):
     cap_param = next((a_.arg for a_ in minit.args.args if a_.arg == 'capacity'), None)
     o.count()
     caps = [x for x in ast.walk(minit) if isinstance(x, ast.Assign) and any(is_self_attr(t, '_capacity') for t in x.targets)]
-    if cap_param is None or len(caps) != 1 or ast.unparse(caps[0].value) != cap_param:
+    def _is_the_argument(v):
+        if cap_param is None:
+            return False
+        if ast.unparse(v) == cap_param:
+            return True
+        # `<unlimited> if capacity is None else capacity` (either orientation): every capacity that is a number is kept as it is
+        if isinstance(v, ast.IfExp) and isinstance(v.test, ast.Compare) and len(v.test.ops) == 1 and isinstance(v.test.left, ast.Name) and v.test.left.id == cap_param \
+                and isinstance(v.test.comparators[0], ast.Constant) and v.test.comparators[0].value is None:
+            keep = v.orelse if isinstance(v.test.ops[0], (ast.Is, ast.Eq)) else v.body if isinstance(v.test.ops[0], (ast.IsNot, ast.NotEq)) else None
+            return keep is not None and ast.unparse(keep) == cap_param
+        return False
+    if cap_param is None or len(caps) != 1 or not _is_the_argument(caps[0].value):
         o.fail(P, 'Maintainer.__init__', caps[0] if caps else 'self._capacity = capacity', 'the maintainer capacity is not exactly the constructor argument '
                '(for instance `capacity or inf` makes a maintainer configured with capacity 0 unlimited)', file=M.mod.path, line=minit.lineno)
     else:
